@@ -75,7 +75,9 @@ PasswordEvents(i) ==
              : sh \in (IF Rich THEN {"nomode", "nosp", "nosep"} ELSE {"nomode"}), c \in CredPool }
 
 ReplyKinds == {"OK", "OKA", "OKE", "NO", "AGAIN", "MORE", "UNL", "JUNK"}
-ReplyEvs(s, tag, k) == { [e |-> "X", svc |-> s, tag |-> tag, kind |-> k, acct |-> a, text |-> t, trail |-> tr]
+\* oid: the client the environment means the reply for; st = 1 marks lines the daemon must ignore entirely
+ReplyEvs(s, tag, k, oid, st) ==
+                         { [e |-> "X", svc |-> s, tag |-> tag, kind |-> k, acct |-> a, text |-> t, trail |-> tr, oid |-> oid, st |-> st]
                            : a \in (IF k = "OKA" THEN AcctPool ELSE {<<"ac1", 8>>}),
                              t \in (IF k \in {"NO", "AGAIN", "MORE"} THEN TextPool ELSE {<<"t1", 9>>}),
                              tr \in (IF k = "OKA" THEN TrailPool ELSE {""}) }
@@ -83,7 +85,7 @@ ReplyEvs(s, tag, k) == { [e |-> "X", svc |-> s, tag |-> tag, kind |-> k, acct |-
 \* replies a service that is awaited may send (all kinds), to the current instance of i
 AwaitedReplies(i) ==
     IF ~Live(i) THEN {}
-    ELSE UNION { ReplyEvs(slots[s].name, Routing(i, req[i].serial), k) : s \in req[i].ref, k \in ReplyKinds }
+    ELSE UNION { ReplyEvs(slots[s].name, Routing(i, req[i].serial), k, i, IF k = "JUNK" THEN 1 ELSE 0) : s \in req[i].ref, k \in ReplyKinds }
 
 \* strays: not-awaited service / unknown service for the current tag; stale, malformed tags
 StrayKinds == IF StrayLevel >= 2 THEN ReplyKinds \ {"JUNK"} ELSE {"OKA", "NO"}
@@ -92,8 +94,8 @@ StrayReplies(i) ==
     ELSE LET cur == IF Live(i) THEN {Routing(i, req[i].serial)} ELSE {}
              notAwaited == IF Live(i) THEN (SvcNameSet \cup {"zz.unknown"}) \ {slots[s].name : s \in req[i].ref} ELSE {}
              badtags == oldtags[i] \cup {Hex(i), Hex(i) \o "_1x", "_", "zz_1"}
-         IN UNION { ReplyEvs(s, t, k) : s \in notAwaited, t \in cur, k \in StrayKinds }
-            \cup UNION { ReplyEvs(s, t, k) : s \in SvcNameSet, t \in badtags, k \in StrayKinds }
+         IN UNION { ReplyEvs(s, t, k, i, 1) : s \in notAwaited, t \in cur, k \in StrayKinds }
+            \cup UNION { ReplyEvs(s, t, k, i, 1) : s \in SvcNameSet, t \in badtags, k \in StrayKinds }
 
 JunkEvents(i) ==
     IF ~JunkOn THEN {}
@@ -104,10 +106,10 @@ JunkEvents(i) ==
 \* all are dropped by the daemon, so nothing may come back
 DeadEvents(i) ==
     IF StrayLevel = 0 \/ Live(i) \/ inst[i] = 0 THEN {}
-    ELSE { [e |-> "H", id |-> i], [e |-> "d", id |-> i], [e |-> "u0", id |-> i], [e |-> "TO", id |-> i],
-           [e |-> "D", id |-> i], [e |-> "T", id |-> i],
-           [e |-> "n", id |-> i, nick |-> <<"n1", 5>>],
-           [e |-> "P", id |-> i, shape |-> "ok", modes |-> <<"-", "!">>, cred |-> <<"p1", 10>>, raw |-> <<"P-!p1", 0>>] }
+    ELSE { [e |-> "H", id |-> i, st |-> 1], [e |-> "d", id |-> i, st |-> 1], [e |-> "u0", id |-> i, st |-> 1],
+           [e |-> "TO", id |-> i, st |-> 1], [e |-> "D", id |-> i, st |-> 1], [e |-> "T", id |-> i, st |-> 1],
+           [e |-> "n", id |-> i, nick |-> <<"n1", 5>>, st |-> 1],
+           [e |-> "P", id |-> i, shape |-> "ok", modes |-> <<"-", "!">>, cred |-> <<"p1", 10>>, raw |-> <<"P-!p1", 0>>, st |-> 1] }
 
 Events ==
     UNION {
